@@ -335,7 +335,7 @@ def run_script(sc, sudachipy, dic=None, point=None, pretoks=None):
                     stats["values"] += 1
                     if g_ != v_:
                         raise Mismatch("result-differs-from-core", "word_info." + k_, {"python": repr(g_)[:200], "core": repr(v_)[:200]})
-                if wi.length() != op["expect"]["head_word_length"]:
+                if "head_word_length" in op["expect"] and wi.length() != op["expect"]["head_word_length"]:
                     raise Mismatch("result-differs-from-core", "word_info.length", {})
             elif kind == "pos_of":
                 g_ = dic.pos_of(op["id"])
